@@ -107,7 +107,7 @@ func demo4() {
 		}
 		gd, gerr, out := genericParse(2, render(2, d))
 		if gd != nil {
-			fmt.Println("   toml generic:", gd.term(), gerr, out)
+			fmt.Println("   toml generic:", gd.Term(), gerr, out)
 		} else {
 			fmt.Println("   toml generic:", gerr, out)
 		}
